@@ -140,6 +140,71 @@ pub fn cfile_typical() -> impl Strategy<Value = CFile> {
     (cmsg(false), cmsg(false), cmsg(false)).prop_map(|(a, b, c)| CFile { msgs: vec![a, b, c] })
 }
 
+/// A fixed three-message file that contains every construct of the supported subset at least
+/// once: every value variant (boolean, octet string incl. a multi-byte TLF, signed / unsigned of
+/// several widths, list-typed time), every status width class, standard and bare times, present
+/// and absent optional fields, a two-byte list TLF. Real meter payloads lack several of these
+/// (no boolean, no signature, no gateway time), so the exhaustive neighbourhoods use it as a base.
+pub fn showcase_file() -> CFile {
+    let std_time = |s: u64, w: u8| CTime::Std { list_extra: 0, tag_extra: 0, secs: CUint::w(s, w) };
+    let oct = |d: &[u8]| COctet::plain(d);
+    let entry = |i: u8, value: CValue, status: Option<CUint>, val_time: Option<CTime>, sig: Option<COctet>| CEntry {
+        list_extra: 0,
+        obj_name: oct(&[1, 0, i, 8, 0, 0xff]),
+        status,
+        val_time,
+        unit: if i % 2 == 0 { Some(CUint::w(30, 1)) } else { None },
+        scaler: if i % 3 == 0 { Some(CInt { value: -1, width: 1, extra: 0 }) } else { None },
+        value,
+        sig,
+    };
+    let mut entries = vec![
+        entry(0, CValue::Bool(1), Some(CUint::w(0x82, 1)), None, None),
+        entry(1, CValue::Bool(0), Some(CUint::w(0x0182, 2)), Some(std_time(0x0102, 2)), None),
+        entry(2, CValue::Bytes(oct(b"ISK")), Some(CUint::w(0x010182, 3)), Some(CTime::Bare { secs: 0x01020304, extra: 0 }), None),
+        entry(3, CValue::Bytes(oct(&[0x41; 20])), Some(CUint::w(0x0001_0182, 4)), None, Some(oct(&[9, 9, 9]))),
+        entry(4, CValue::Int(CInt { value: -2, width: 1, extra: 0 }), Some(CUint::w(0x01_0000_0182, 5)), None, None),
+        entry(5, CValue::Int(CInt { value: -300, width: 2, extra: 0 }), Some(CUint::w(0x0100_0000_0000_0182, 8)), None, None),
+        entry(6, CValue::Int(CInt { value: -70000, width: 3, extra: 0 }), None, None, None),
+        entry(7, CValue::Int(CInt { value: 0x1234567, width: 4, extra: 0 }), None, None, None),
+        entry(8, CValue::Int(CInt { value: -0x1234567890, width: 5, extra: 0 }), None, None, None),
+        entry(9, CValue::Int(CInt { value: i64::MIN + 5, width: 8, extra: 0 }), None, None, None),
+        entry(10, CValue::Uint(CUint::w(0xfe, 1)), None, None, None),
+        entry(11, CValue::Uint(CUint::w(0xfedc, 2)), None, None, None),
+        entry(12, CValue::Uint(CUint::w(0x80dcba, 3)), None, None, None),
+        entry(13, CValue::Uint(CUint::w(0xfedcba98, 4)), None, None, None),
+        entry(14, CValue::Uint(CUint::w(0x80dcba9876, 5)), None, None, None),
+        entry(15, CValue::Uint(CUint::w(u64::MAX - 1, 8)), None, None, None),
+        entry(16, CValue::ListTime { list_extra: 0, tag_extra: 0, time: std_time(0x01020304, 4) }, None, None, None),
+    ];
+    entries[4].obj_name.extra = 1;
+    let m = |body: CBody, tid: &[u8]| CMsg {
+        list_extra: 0,
+        transaction_id: oct(tid),
+        group_no: CUint::w(0, 1),
+        abort_on_error: CUint::w(0, 1),
+        body_list_extra: 0,
+        tag_width: 2,
+        tag_extra: 0,
+        body,
+        crc_short: false,
+        crc_extra: 0,
+    };
+    CFile {
+        msgs: vec![
+            m(
+                CBody::Open { list_extra: 0, codepage: None, client_id: Some(oct(&[7, 7])), req_file_id: oct(&[1, 2, 3, 4, 5, 6]), server_id: oct(&[0x0a, 1, 0x49, 0x53, 0x4b, 0, 4, 3, 0xdf, 0x63]), ref_time: Some(std_time(0x0a0b0c, 3)), sml_version: Some(CUint::w(1, 1)) },
+                &[1, 2, 3],
+            ),
+            m(
+                CBody::GetList { list_extra: 0, client_id: None, server_id: oct(&[0x0a, 1, 0x49, 0x53, 0x4b, 0, 4, 3, 0xdf, 0x63]), list_name: Some(oct(&[1, 0, 0x62, 0x0a, 0xff, 0xff])), act_sensor_time: Some(std_time(0x07aff5e4, 4)), vals_extra: 0, entries, list_sig: Some(oct(&[0xaa, 0xbb])), act_gateway_time: Some(CTime::Bare { secs: 77, extra: 0 }) },
+                &[1, 2, 4],
+            ),
+            m(CBody::Close { list_extra: 0, sig: Some(oct(&[5, 5, 5, 5])) }, &[1, 2, 5]),
+        ],
+    }
+}
+
 // ---------------------------------------------------------------------------------------
 // classification helpers for evidence
 // ---------------------------------------------------------------------------------------
@@ -239,6 +304,13 @@ mod tests {
     use super::*;
     use proptest::strategy::ValueTree;
     use proptest::test_runner::TestRunner;
+    #[test]
+    fn showcase_file_is_valid() {
+        let f = showcase_file();
+        let w = write(&f);
+        assert_eq!(read_file(&w.bytes).expect("showcase must be valid"), f.abstract_());
+    }
+
     #[test]
     fn generated_files_roundtrip_through_reference_reader() {
         std::thread::Builder::new()
